@@ -3,6 +3,7 @@ import itertools
 import re
 
 from .. import emphasis_model as em
+from .. import emphasis_link_model as lm
 from .. import mt, workloads
 
 ID = 'C06'
@@ -12,12 +13,17 @@ ASSUMPTIONS = [
     'every in-alphabet example of the spec section "Emphasis and strong emphasis" in each run (a disagreement there makes the '
     'run inconclusive)',
     'the inline text is embedded as ATX heading content ("# " + text), whose stripping of surrounding spaces is mirrored',
-    'characters with another inline meaning (` [ ] < & \\ ~ !) and code points whose whitespace class differs between spec and '
-    'str.strip are outside the domain',
+    'characters with another inline meaning (` < & \\ ~) and code points whose whitespace class differs between spec and '
+    'str.strip are outside the domain; brackets are covered by a second family: strings over the tokens {a, space, *, **, _, [, ![, ], ](u)} '
+    'are compared with rtmon.emphasis_link_model, the spec\'s "look for link or image" procedure with the one inline link tail "(u)" '
+    '(no reference definitions: other bracket forms stay literal)',
 ]
 
 ALPHA = 'a *_.'
-WIDE = list('ab1') + list('.,;:?\'"()-+=/') + list('«»–…¡') + ['é', '中', ' ', ' ', '　'] + [' '] * 6 + ['*'] * 9 + ['_'] * 7
+WIDE = list('ab1') + list('.,;:?\'"()-+=/') + list('«»–…¡') + ['é', '中', ' ', ' ', '　'] + [' '] * 6 + ['*'] * 9 + ['_'] * 7 \
+    + ['€', '©', '×', '°', '→', '\U0001F600',       # Unicode symbols (Sc, So, Sm): neither punctuation nor whitespace in 0.30
+       '\U00011047', '\U00010100', '\u2e3a',         # punctuation outside the BMP / in rarely visited blocks (Po, Pd)
+       '\u2003', '\u1680', '\u205f']                # further Zs spaces
 
 
 def expected_heading(t):
@@ -46,6 +52,42 @@ def check_text(ctx, t, source):
         ctx.count('model', 'partial run consumption')
     if got != exp:
         ctx.violation('structure-differs', signature(t), case, expected=exp, observed=got)
+
+
+LINK_TOKENS = ['a', ' ', '*', '_', '[', ']', '](u)', '![', '**']
+
+
+def check_link_text(ctx, t, source):
+    ctx.ev()
+    t = t.strip()
+    case = {'text': t, 'source': source, 'family': 'links'}
+    inner, stats = lm.render(t)
+    exp = '<h1>%s</h1>\n' % inner
+    try:
+        got = mt.html('# ' + t + '\n')
+    except Exception as e:  # noqa
+        ctx.violation('parser-fails', mt.exc_site(e), case, traceback=mt.tb_text(e))
+        return
+    if stats['links'] or stats['images']:
+        ctx.count('nontrivial', source)
+        if stats['matches']:
+            ctx.count('model', 'emphasis together with a link or image')
+    if stats['inactive_hits']:
+        ctx.count('model', 'closing bracket met an inactive opener')
+    if got != exp:
+        ctx.violation('structure-differs', 'links: ' + link_signature(t), case, expected=exp, observed=got)
+
+
+def link_signature(t):
+    out = []
+    for x in lm.scan(t):
+        if isinstance(x, em.Delim):
+            out.append('%s%d' % (x.ch, min(x.num, 3)))
+        elif isinstance(x, lm.Bracket):
+            out.append(x.text)
+        elif isinstance(x, tuple):
+            out.append('](u)' if x[1] else ']')
+    return ' '.join(out[:10])
 
 
 def signature(t):
@@ -78,6 +120,24 @@ def validate_model(ctx):
             ctx.note('MODEL DISAGREES WITH SPEC example %d: %r' % (ex['example'], md))
     ctx.count('model-validation', 'spec examples reproduced', ok)
     ctx.count('model-validation', 'spec examples NOT reproduced', bad)
+    # the link-aware model against the examples of "Links", "Images" and "Emphasis" that use nothing but simple inline link tails
+    ok = bad = 0
+    for ex in workloads.spec():
+        if ex['section'] not in ('Links', 'Images', 'Emphasis and strong emphasis') or ex['markdown'].count('\n') != 1:
+            continue
+        t = re.sub(r'\((/ur[il]|uri|/foo|foo)\)', '(u)', ex['markdown'].rstrip('\n'))
+        rest = t.replace('](u)', '')
+        if re.search(r'[`<>&\\~"\'#:()]', rest) or t.startswith(('* ', '- ', '+ ', '    ')) or re.match(r'^([*_-] *){3,}$', t):
+            continue
+        want = re.sub(r'(href|src)="(/ur[il]|uri|/foo|foo)"', r'\1="u"', ex['html'])
+        want = re.sub(r'\((/ur[il]|uri|/foo|foo)\)', '(u)', want)
+        if '<p>%s</p>\n' % lm.render(t)[0] == want:
+            ok += 1
+        else:
+            bad += 1
+            ctx.note('LINK MODEL DISAGREES WITH SPEC example %d: %r' % (ex['example'], ex['markdown']))
+    ctx.count('model-validation', 'link-model spec examples reproduced', ok)
+    ctx.count('model-validation', 'spec examples NOT reproduced', bad)
 
 
 def plan(tier):
@@ -86,7 +146,7 @@ def plan(tier):
     return {'shards': 16, 'budget_s': 900}
 
 
-SIZES = {'quick': dict(n5=8, n2=14, n3=10, rand=20000), 'thorough': dict(n5=10, n2=14, n3=13, rand=400000)}
+SIZES = {'quick': dict(n5=8, n2=14, n3=10, rand=80000, nlink=5, randlink=20000), 'thorough': dict(n5=10, n2=14, n3=13, rand=2000000, nlink=7, randlink=600000)}
 
 
 def run(ctx):
@@ -116,7 +176,18 @@ def run(ctx):
             if idx % ctx.nshards != ctx.shard:
                 continue
             check_text(ctx, ''.join(tup), 'enum3(a*_)<=%d' % sz['n3'])
+    # emphasis together with links and images
+    for n in range(0, sz['nlink'] + 1):
+        for tup in itertools.product(LINK_TOKENS, repeat=n):
+            idx += 1
+            if idx % ctx.nshards != ctx.shard:
+                continue
+            check_link_text(ctx, ''.join(tup), 'enum-links<=%d' % sz['nlink'])
     rng = ctx.rng
+    for k in range(sz['randlink'] // ctx.nshards):
+        if ctx.out_of_time():
+            break
+        check_link_text(ctx, ''.join(rng.choice(LINK_TOKENS) for _ in range(rng.randint(6, 16))), 'random-links')
     for k in range(sz['rand'] // ctx.nshards):
         if ctx.out_of_time():
             break
@@ -140,6 +211,8 @@ def finalize(m, tier):
     mv = m.c('model-validation')
     if mv.get('spec examples NOT reproduced', 0):
         inconclusive.append('the reference model disagrees with %d spec example(s); see notes' % mv['spec examples NOT reproduced'])
+    if mv.get('link-model spec examples reproduced', 0) < 90:
+        inconclusive.append('link-model validation covered only %d spec examples' % mv.get('link-model spec examples reproduced', 0))
     if mv.get('spec examples reproduced', 0) < 90:
         inconclusive.append('model validation covered only %d spec examples' % mv.get('spec examples reproduced', 0))
     space5 = sum(5 ** n for n in range(sz['n5'] + 1))
@@ -151,8 +224,10 @@ def finalize(m, tier):
                 'length %d and {a,*,_} up to 10/13 (%d strings), each distinct by construction; plus random strings up to length 40 over letters, digits, '
                 'inert ASCII punctuation, Unicode punctuation and Zs spaces. Each is rendered as heading content by the real parser '
                 'and compared with the reference delimiter algorithm. non-trivial = the reference algorithm forms at least one '
-                '<em>/<strong> (enumerated strings are distinct by construction; random ones are de-duplicated by hash)'
-                % (sz['n5'], space5, sz['n2'], space2),
+                '<em>/<strong> (enumerated strings are distinct by construction; random ones are de-duplicated by hash). Second family: every '
+                'string of up to %d tokens from {a, space, *, **, _, [, ![, ], ](u)} and random ones of 6-16 tokens, compared with the '
+                'link-aware model (non-trivial there = at least one link or image is formed)'
+                % (sz['n5'], space5, sz['n2'], space2, sz['nlink']),
         'exhaustive': True,
         'inconclusive': inconclusive,
         'extra': {'enumerated_space': {'alphabet5': space5, 'alphabet2x2': space2}, 'model_validation': mv,
@@ -161,7 +236,10 @@ def finalize(m, tier):
 
 
 def replay(ctx, case):
-    check_text(ctx, case['text'], case.get('source', 'replay'))
+    if case.get('family') == 'links':
+        check_link_text(ctx, case['text'], case.get('source', 'replay'))
+    else:
+        check_text(ctx, case['text'], case.get('source', 'replay'))
 
 
 import os as _os  # noqa: E402
